@@ -1244,6 +1244,20 @@ class OptionStore:
                 others_d[k] = v
         return (prefix, others_d)
 
+    @staticmethod
+    def buildtype_first(coll: T.Dict[OptionKey, _T]) -> T.Dict[OptionKey, _T]:
+        '''Return the dictionary with the buildtype entries moved to the front.
+
+        As on the command line (see cmdline.parse_cmd_line_options),
+        buildtype must be processed before debug and optimization, so that
+        the buildtype expansion sets their defaults and values given
+        explicitly for them override it, whatever the textual order.
+        '''
+        if not any(k.name == 'buildtype' for k in coll):
+            return coll
+        return {**{k: v for k, v in coll.items() if k.name == 'buildtype'},
+                **{k: v for k, v in coll.items() if k.name != 'buildtype'}}
+
     def first_handle_prefix(self,
                             project_default_options: OptionDict,
                             cmd_line_options: dict[OptionKey, str | None],
@@ -1287,6 +1301,8 @@ class OptionStore:
         (project_default_options, cmd_line_options, machine_file_options) = self.first_handle_prefix(project_default_options_in,
                                                                                                      cmd_line_options_in,
                                                                                                      machine_file_options_in)
+        project_default_options = self.buildtype_first(project_default_options)
+        machine_file_options = self.buildtype_first(machine_file_options)
         for key, valstr in project_default_options.items():
             # Due to backwards compatibility we ignore build-machine options
             # when building natively.
